@@ -500,6 +500,17 @@ func checkRoundTripValidated(r *Reporter, p *Prog, pkg string, info *types.Info)
 					// a sign factor: every definition is the constant 1 or -1 - syntactically in this function,
 					// or as the set of values that can reach this point through a spliced helper's results
 					unitVals := func(e ast.Expr) bool {
+						// a conversion of the sign to the product's type is still the sign
+						for {
+							c, isCall := ast.Unparen(e).(*ast.CallExpr)
+							if !isCall || len(c.Args) != 1 {
+								break
+							}
+							if tv, ok := info.Types[c.Fun]; !ok || !tv.IsType() {
+								break
+							}
+							e = c.Args[0]
+						}
 						if objOfIdent(info, e) == nil {
 							return false
 						}
@@ -509,6 +520,12 @@ func checkRoundTripValidated(r *Reporter, p *Prog, pkg string, info *types.Info)
 						}
 						for _, v := range vals {
 							v = strings.Trim(v, "()")
+							// a named constant of the package stands for its value
+							if pk := p.Pkg(pkg); pk != nil && pk.Types != nil {
+								if cst, isConst := pk.Types.Scope().Lookup(v).(*types.Const); isConst {
+									v = cst.Val().String()
+								}
+							}
 							if v != "1" && v != "-1" {
 								return false
 							}
